@@ -53,6 +53,12 @@ Proof.
   apply (frame_encode_wellformed _ _ _ He).
 Qed.
 
+(* every setter of the source assigns exactly the fields the model's setter changes (regenerated footprints): in particular
+   relay() touches the protocol only and the size mode is written by mode() alone *)
+Theorem c18_setters_touch_only_their_own_option : footprints_tied = true.
+Proof. vm_compute. reflexivity. Qed.
+
+
 Example c18_example :
   frame_encode Compressed (isi_pval (isi_of (build [OFlag 0 true; OUdp None; OReqi 7; OFlag 1 true; OFlag 0 false])))
   = Ok ([11; 1; 7; 0; 0; 0; 4; 0; 9; 0; 0; 0] ++ repeat 0 16 ++ [105; 110; 115; 105; 109; 46; 114; 115] ++ repeat 0 8).
